@@ -267,6 +267,9 @@ func retVals(r *ssa.Return) []ssa.Value {
 // deferred block) so that inserting an unrelated closure does not rename them.
 func (p *Prog) cname(f *ssa.Function) string {
 	if f.Parent() == nil {
+		if r := p.roleName(f); r != "" {
+			return r
+		}
 		return p.fnKey(f)
 	}
 	if p.cnameMemo == nil {
@@ -352,4 +355,17 @@ func (p *Prog) deferredCallTo(f *ssa.Function, key string) (*ssa.Defer, ssa.Call
 		}
 	})
 	return d0, c0
+}
+
+// callsToFn: call instructions in f whose resolved static callee is g.
+func (p *Prog) callsToFn(f, g *ssa.Function) []ssa.CallInstruction {
+	var out []ssa.CallInstruction
+	allInstrs(f, func(i ssa.Instruction) {
+		if ci, ok := i.(ssa.CallInstruction); ok {
+			if ci.Common().StaticCallee() == g {
+				out = append(out, ci)
+			}
+		}
+	})
+	return out
 }
